@@ -269,41 +269,122 @@ def rule_sp_acc(ctx: RuleContext, p: Program, rid: str, ctx_len: int = 3) -> Non
 
 
 def rule_sp_route(ctx: RuleContext, p: Program, rid: str) -> None:
-    ctx.rule(rid, 'spacing_before/after route to raw_spacing_before/after of the same side through _tokens_to_text / '
-                  '_text_to_tokens; _tokens_to_text concatenates raw_text of every token; _text_to_tokens yields a Whitespace for '
-                  'group 1 and a Newline for group 2 of every match, in order')
+    """finite-domain evaluation of the string accessors and their two converters"""
+    import itertools
+    from . import possem
+    from .tokenstore import TS
+    ctx.rule(rid, 'the string accessors, interpreted: _text_to_tokens, for every string of up to 4 characters over {space, tab, CR, LF, x}, yields '
+                  'one Whitespace per maximal run of blanks and one Newline per line terminator (CR* LF), in order, each with exactly its text '
+                  '(characters that are neither are skipped); _tokens_to_text concatenates raw_text of every token; spacing_before / '
+                  'spacing_after read _tokens_to_text of the raw accessor of the same side and assign _text_to_tokens(value) to it')
+    m = p.module('models.internal.spacing_accessors')
     mx = p.cls('SpacingAccessorsMixin', 'models.internal.spacing_accessors')
-    for side in ('before', 'after'):
-        g = p.method(mx, f'spacing_{side}', inherited=False)
-        r = [x.value for x in walk_no_nested(g.node) if isinstance(x, ast.Return)]
-        ctx.check(len(r) == 1 and norm(r[0]) == f'_tokens_to_text(self.raw_spacing_{side})', rid,
-                  f'SpacingAccessorsMixin.spacing_{side}', norm(r[0]) if r else '', f'spacing_{side} getter does not read raw_spacing_{side}', g.where)
-        s = p.method(mx, f'spacing_{side}', setter=True, inherited=False)
-        a = [x for x in walk_no_nested(s.node) if isinstance(x, ast.Assign)]
-        ok = len(a) == 1 and norm(a[0].targets[0]) == f'self.raw_spacing_{side}' and \
-            norm(a[0].value) in (f'tuple(_text_to_tokens({s.params[1]}))', f'list(_text_to_tokens({s.params[1]}))')
-        ctx.check(ok, rid, f'SpacingAccessorsMixin.spacing_{side}[set]', norm(a[0]) if a else '',
-                  f'spacing_{side} setter does not assign raw_spacing_{side} from _text_to_tokens(value)', s.where)
-    t2t = p.func('models.internal.spacing_accessors', '_tokens_to_text')
-    r = [x.value for x in walk_no_nested(t2t.node) if isinstance(x, ast.Return)]
-    ok = len(r) == 1 and isinstance(r[0], ast.Call) and norm(r[0].func) == "''.join" and \
-        isinstance(r[0].args[0], (ast.GeneratorExp, ast.ListComp)) and norm(r[0].args[0].elt).endswith('.raw_text') \
-        and not r[0].args[0].generators[0].ifs
-    ctx.check(ok, rid, '_tokens_to_text', norm(r[0]) if r else '', '_tokens_to_text does not join raw_text of every token', t2t.where)
+    ts = TS(p)
     t2k = p.func('models.internal.spacing_accessors', '_text_to_tokens')
-    lp = [l for l in walk_no_nested(t2k.node) if isinstance(l, ast.For)]
-    ok = False
-    if len(lp) == 1 and isinstance(lp[0].iter, ast.Call) and norm(lp[0].iter.func) == '_SPACING_GROUP_RE.findall' \
-            and isinstance(lp[0].target, ast.Tuple) and len(lp[0].target.elts) == 2:
-        g1, g2 = (norm(e) for e in lp[0].target.elts)
-        ys = []
-        for st in lp[0].body:
-            if isinstance(st, ast.If) and len(st.body) == 1 and isinstance(st.body[0], ast.Expr) \
-                    and isinstance(st.body[0].value, ast.Yield) and not st.orelse:
-                ys.append((norm(st.test), norm(st.body[0].value.value)))
-        ok = ys == [(g1, f'Whitespace.from_raw_text({g1})'), (g2, f'Newline.from_raw_text({g2})')]
-    ctx.check(ok, rid, '_text_to_tokens', 'group1 -> Whitespace, group2 -> Newline', '_text_to_tokens does not map group 1 to '
-              'Whitespace and group 2 to Newline for every match', t2k.where)
+    t2t = p.func('models.internal.spacing_accessors', '_tokens_to_text')
+
+    class Interp(possem.PosInterp):
+        tag = 'SP-ROUTE'
+
+        def __init__(self, me: Any = None) -> None:
+            super().__init__(ts, [], module=m)
+            self.me = me
+            self.assigned: dict = {}
+
+        def expr(self, e: Any, env: dict) -> Any:                 # type: ignore[override]
+            if isinstance(e, ast.Call) and isinstance(e.func, ast.Attribute) and e.func.attr == 'from_raw_text' and isinstance(e.func.value, ast.Name) \
+                    and e.func.value.id in ('Whitespace', 'Newline') and e.func.value.id not in env:
+                return possem.Obj(e.func.value.id, {'raw_text': self.expr(e.args[0], env)}, e.func.value.id)
+            if isinstance(e, ast.Call) and isinstance(e.func, ast.Attribute) and e.func.attr == 'join' and isinstance(e.func.value, ast.Constant):
+                return e.func.value.value.join(self.iter_of(self.expr(e.args[0], env), e))
+            if isinstance(e, ast.Attribute) and isinstance(e.value, ast.Name) and self.me is not None and env.get(e.value.id) is self.me \
+                    and e.attr in ('raw_spacing_before', 'raw_spacing_after'):
+                return self.me.f[e.attr]
+            if isinstance(e, ast.Name) and e.id not in env:
+                f_ = next((f for f in p.functions_in(m) if f.qualname == e.id), None)
+                if f_ is not None:
+                    return f_
+            return super().expr(e, env)
+
+        def stmt(self, st: Any, env: dict) -> None:           # type: ignore[override]
+            if isinstance(st, ast.Assign) and len(st.targets) == 1 and isinstance(st.targets[0], ast.Attribute) and self.me is not None \
+                    and isinstance(st.targets[0].value, ast.Name) and env.get(st.targets[0].value.id) is self.me:
+                self.assigned[st.targets[0].attr] = self.expr(st.value, env)
+                return
+            super().stmt(st, env)
+
+    def reference(text: str) -> list[tuple[str, str]]:
+        out: list[tuple[str, str]] = []
+        i = 0
+        while i < len(text):
+            ch = text[i]
+            if ch in ' \t':
+                j = i
+                while j < len(text) and text[j] in ' \t':
+                    j += 1
+                out.append(('Whitespace', text[i:j]))
+                i = j
+            elif ch in '\r\n':
+                j = i
+                while j < len(text) and text[j] == '\r':
+                    j += 1
+                if j < len(text) and text[j] == '\n':
+                    out.append(('Newline', text[i:j + 1]))
+                    i = j + 1
+                else:
+                    i = j if j > i else i + 1      # CRs that no LF follows are not a line terminator: skipped
+            else:
+                i += 1
+        return out
+
+    problem = ''
+    n = 0
+    for k in range(0, 5):
+        for chars in itertools.product(' \t\r\nx', repeat=k):
+            text = ''.join(chars)
+            n += 1
+            try:
+                got = Interp().call_function(t2k, [text], {})
+            except possem.Raised as ex:
+                problem = problem or f'{text!r}: raises {ex}'
+                continue
+            shape = [(g.cls, g.f['raw_text']) for g in (got or []) if isinstance(g, possem.Obj)]
+            if shape != reference(text) and not problem:
+                problem = f'_text_to_tokens({text!r}) yields {shape}, expected {reference(text)}'
+    ctx.check(not problem, rid, '_text_to_tokens', 'blank runs -> Whitespace, line terminators -> Newline', problem, t2k.where, note=f'{n} strings')
+    toks = [possem.Obj('Whitespace', {'raw_text': '  '}, 'a'), possem.Obj('Newline', {'raw_text': '\r\n'}, 'b'), possem.Obj('Whitespace', {'raw_text': '\t'}, 'c')]
+    problem = ''
+    for sub in (toks[:0], toks[:1], toks[:2], toks):
+        try:
+            got = Interp().call_function(t2t, [list(sub)], {})
+        except possem.Raised as ex:
+            got = f'raises {ex}'
+        if got != ''.join(t.f['raw_text'] for t in sub):
+            problem = problem or f'_tokens_to_text of {len(sub)} tokens gives {got!r}'
+    ctx.check(not problem, rid, '_tokens_to_text', 'concatenation of raw_text', problem, t2t.where)
+    for side in ('before', 'after'):
+        other = 'after' if side == 'before' else 'before'
+        g = p.method(mx, f'spacing_{side}', inherited=False)
+        me = possem.Obj('Model', {f'raw_spacing_{side}': tuple(toks), f'raw_spacing_{other}': (possem.Obj('Whitespace', {'raw_text': 'WRONG'}, 'w'),)}, 'model')
+        it = Interp(me)
+        try:
+            got = it.call_function(g, [me], {})
+        except possem.Raised as ex:
+            got = f'raises {ex}'
+        ctx.check(got == '  \r\n\t', rid, f'SpacingAccessorsMixin.spacing_{side}', 'reads the raw accessor of its own side',
+                  f'spacing_{side} returns {got!r}, the tokens of raw_spacing_{side} read {"  " + chr(13) + chr(10) + chr(9)!r}', g.where)
+        st_ = p.method(mx, f'spacing_{side}', setter=True, inherited=False)
+        it = Interp(me)
+        try:
+            it.call_function(st_, [me, ' \n'], {})
+            val = it.assigned.get(f'raw_spacing_{side}')
+            shape = [(x.cls, x.f['raw_text']) for x in (val or []) if isinstance(x, possem.Obj)]
+            ok = set(it.assigned) == {f'raw_spacing_{side}'} and shape == [('Whitespace', ' '), ('Newline', '\n')]
+            why = f'assigns {dict((k_, [(x.cls, x.f["raw_text"]) for x in v_]) for k_, v_ in it.assigned.items())}'
+        except possem.Raised as ex:
+            ok, why = False, f'raises {ex}'
+        ctx.check(ok, rid, f'SpacingAccessorsMixin.spacing_{side}[set]', 'assigns the tokens of the text to the raw accessor of its own side',
+                  f'spacing_{side} = " \\n": {why}; expected raw_spacing_{side} = [Whitespace " ", Newline "\\n"]', st_.where)
 
 
 def run(ctx: RuleContext, p: Program) -> None:
@@ -318,7 +399,8 @@ def run(ctx: RuleContext, p: Program) -> None:
     ctx.try_rule(c12.rule_gram_look, p, c12.grammar(p), 'GRAM-LOOK')
     ctx.not_decided += ['which invisible tokens neighbour a model at run time', 'that adjacent models see the same run (follows from '
                         'the mirror-image getters, not observed)']
-    ctx.assumptions += ['TokenStore.get_prev/get_next/splice/insert semantics (C07)']
+    ctx.assumptions += ['TokenStore.get_prev/get_next/splice/insert semantics (C07)', 'stdlib re applied to the compiled pattern constant _SPACING_GROUP_RE '
+                        '(its language is compared with the grammar terminals by SPACING-RE)']
 
 
 # ====================================================================== SP-SEM (added after seeded round 3)
